@@ -231,7 +231,7 @@ def run(case: dict, ctx) -> dict:
         ngr = -(-cap // grain)
         st = table_states(rng, ngr, ngte, "AAUFZ") if (-(-ngr // ngte) >= 2 and rng.random() < 0.6) else None
         sf, layer, meta = w.build_sesparse(rng, capacity=cap, grain=grain, gt_sectors=gts, states=st, placement=placement, tag=tag,
-                                           big_index=rng.random() < 0.6)
+                                           big_index=rng.random() < 0.6, huge_index=rng.random() < 0.3)
     elif k == "flat":
         cap = rng.choice([1, 15, 16, 17, rng.randrange(1, 3000)])
         sf, layer, meta = w.build_flat(rng, nsectors=cap, tag=tag)
